@@ -10,8 +10,10 @@ import (
 	"io"
 	"net"
 	"reflect"
+	"runtime"
 	"strconv"
 	"strings"
+	"sync"
 	"testing"
 	"time"
 )
@@ -156,6 +158,212 @@ func c19Piped(dst []byte, buf []byte, pats [][]int) []byte {
 	return append(dst, bytes.Join(toks, []byte{'/'})...)
 }
 
+// ---- batches: every call of the batch is made first and its result kept as returned (slices are
+// NOT copied); only after the whole batch the kept results are looked at.
+
+type c19EncSlot struct {
+	h, h0  Header // the argument, and a copy taken before any call
+	m      []byte // as returned by MarshalBinary, kept
+	mErr   error
+	wt     bytes.Buffer // the writer given to WriteTo
+	wtN    int64
+	wtErr  error
+	whConn c19Conn // the connection given to writeHeader
+	whErr  error
+}
+
+func (s *c19EncSlot) marshal() {
+	// the caller owns what MarshalBinary returns: one result is overwritten by the caller ...
+	if b, err := s.h.MarshalBinary(); err == nil {
+		for i := range b {
+			b[i] = 0xFF
+		}
+	}
+	// ... and one is kept
+	s.m, s.mErr = s.h.MarshalBinary()
+}
+func (s *c19EncSlot) writeTo() { s.wtN, s.wtErr = s.h.WriteTo(&s.wt) }
+func (s *c19EncSlot) writeHeader() {
+	cl := NewClient()
+	cl.conn = &s.whConn
+	s.whErr = cl.writeHeader(s.h)
+}
+
+func (s *c19EncSlot) token(dst []byte) []byte {
+	m := "E"
+	if s.mErr == nil {
+		m = hex.EncodeToString(s.m)
+	}
+	wt := "E"
+	if s.wtErr == nil {
+		wt = hex.EncodeToString(s.wt.Bytes())
+		if s.wtN != int64(s.wt.Len()) {
+			wt += fmt.Sprintf("(n=%d)", s.wtN)
+		}
+	} else if s.wt.Len() != 0 {
+		wt = "E+" + hex.EncodeToString(s.wt.Bytes())
+	}
+	wh := "E"
+	if s.whErr == nil {
+		wh = hex.EncodeToString(s.whConn.w.Bytes())
+	}
+	if wt == m {
+		wt = "="
+	}
+	if wh == m {
+		wh = "="
+	}
+	dst = append(dst, m...)
+	dst = append(dst, '|')
+	dst = append(dst, wt...)
+	dst = append(dst, '|')
+	dst = append(dst, wh...)
+	if s.h != s.h0 {
+		dst = append(dst, "!in"...)
+	}
+	return dst
+}
+
+type c19DecSlot struct {
+	buf, buf0 []byte // the argument of UnmarshalBinary, and a copy taken before
+	h         Header // the decode target, kept
+	err       error
+	rh        Header // what readHeader returned for a connection delivering the same bytes
+	rhErr     error
+}
+
+func (s *c19DecSlot) unmarshal() { s.err = s.h.UnmarshalBinary(s.buf) }
+func (s *c19DecSlot) read() {
+	conn := &c19Conn{}
+	conn.r.Reset(append([]byte(nil), s.buf0...))
+	cl := NewClient()
+	cl.conn = conn
+	s.rh, s.rhErr = cl.readHeader()
+}
+
+func (s *c19DecSlot) token(dst []byte, inputChanged bool) []byte {
+	a := c19Hdr(nil, s.h, s.err)
+	b := c19Hdr(nil, s.rh, s.rhErr)
+	dst = append(dst, a...)
+	dst = append(dst, '|')
+	if bytes.Equal(a, b) {
+		dst = append(dst, '=')
+	} else {
+		dst = append(dst, b...)
+	}
+	if inputChanged {
+		dst = append(dst, "!in"...)
+	}
+	return dst
+}
+
+// c19Run runs the per-item operation lists of n items: par 0 = sequentially, operation by
+// operation over all items; par 1 = sequentially, item by item; par >= 2 = that many goroutines,
+// items dealt round-robin, each goroutine item by item, yielding between operations.
+func c19Run(n, par int, ops []func(i int)) {
+	switch {
+	case par == 0:
+		for _, op := range ops {
+			for i := 0; i < n; i++ {
+				op(i)
+			}
+		}
+	case par == 1:
+		for i := 0; i < n; i++ {
+			for _, op := range ops {
+				op(i)
+			}
+		}
+	default:
+		var wg sync.WaitGroup
+		start := make(chan struct{})
+		for g := 0; g < par; g++ {
+			wg.Add(1)
+			go func(g int) {
+				defer wg.Done()
+				<-start
+				for i := g; i < n; i += par {
+					for _, op := range ops {
+						op(i)
+						runtime.Gosched()
+					}
+				}
+			}(g)
+		}
+		close(start)
+		wg.Wait()
+	}
+}
+
+func c19BatchEnc(dst []byte, par int, items string) []byte {
+	var slots []*c19EncSlot
+	for _, it := range strings.Split(items, ";") {
+		v := strings.Split(it, ":")
+		ver, _ := strconv.ParseUint(v[0], 10, 8)
+		typ, _ := strconv.ParseUint(v[1], 10, 16)
+		l, _ := strconv.ParseUint(v[2], 10, 32)
+		id, _ := strconv.ParseUint(v[3], 10, 32)
+		h := Header{version: VersionNum(ver), typ: MessageType(typ), payloadLen: uint32(l), id: messageID(id)}
+		slots = append(slots, &c19EncSlot{h: h, h0: h})
+	}
+	c19Run(len(slots), par, []func(int){
+		func(i int) { slots[i].marshal() },
+		func(i int) { slots[i].writeTo() },
+		func(i int) { slots[i].writeHeader() },
+	})
+	for i, s := range slots {
+		if i > 0 {
+			dst = append(dst, ' ')
+		}
+		dst = s.token(dst)
+	}
+	return dst
+}
+
+func c19BatchDec(dst []byte, par int, items string) []byte {
+	var slots []*c19DecSlot
+	for _, it := range strings.Split(items, ";") {
+		var b []byte
+		if it != "-" {
+			b, _ = hex.DecodeString(it)
+		}
+		slots = append(slots, &c19DecSlot{buf: append([]byte{}, b...), buf0: b})
+	}
+	if par == 0 {
+		// one scratch buffer reused by the caller for every call: targets decoded earlier must
+		// not change when the buffer they were decoded from is overwritten
+		scratch := make([]byte, 0, 64)
+		changed := make([]bool, len(slots))
+		for i, s := range slots {
+			scratch = append(scratch[:0], s.buf0...)
+			s.buf = scratch
+			s.unmarshal()
+			changed[i] = !bytes.Equal(scratch, s.buf0)
+		}
+		for _, s := range slots {
+			s.read()
+		}
+		for i, s := range slots {
+			if i > 0 {
+				dst = append(dst, ' ')
+			}
+			dst = s.token(dst, changed[i])
+		}
+		return dst
+	}
+	c19Run(len(slots), par, []func(int){
+		func(i int) { slots[i].unmarshal() },
+		func(i int) { slots[i].read() },
+	})
+	for i, s := range slots {
+		if i > 0 {
+			dst = append(dst, ' ')
+		}
+		dst = s.token(dst, !bytes.Equal(s.buf, s.buf0))
+	}
+	return dst
+}
+
 func c19Csv(s string) []uint64 {
 	var out []uint64
 	for _, f := range strings.Split(s, ",") {
@@ -215,6 +423,13 @@ func c19Decode(dst []byte, c *Client, conn *c19Conn, buf []byte) []byte {
 //	                                  agree, else one per pattern joined by '/'
 //	rfg <hex> <pats>                  the same for an arbitrary stream, with "@<bytes consumed>"
 //	pip <hex> <pats>                  the same over net.Pipe with a read timeout (no "@")
+//	bat enc <par> v:t:l:i;...         a batch of headers: all MarshalBinary / WriteTo / writeHeader
+//	                                  calls are made first (par 0: call by call over all items,
+//	                                  1: item by item, >=2: that many goroutines) and what they
+//	                                  returned is kept, not copied; then one enc-style token per
+//	                                  item from the kept results ("!in" if the argument changed)
+//	bat dec <par> hex;hex;...         the same for UnmarshalBinary / readHeader (par 0: the caller
+//	                                  reuses one buffer for all calls); raw-style tokens
 //	tables                            JSON dump of the message-type functions for all codes
 func TestVerifC19(t *testing.T) {
 	lines, w, done := verifIO(t)
@@ -272,6 +487,13 @@ func TestVerifC19(t *testing.T) {
 				out = c19Fragmented(out, cf, chunkConn, buf, c19Pats(f[2]), true)
 			} else {
 				out = c19Piped(out, buf, c19Pats(f[2]))
+			}
+		case "bat":
+			par, _ := strconv.Atoi(f[2])
+			if f[1] == "enc" {
+				out = c19BatchEnc(out, par, f[3])
+			} else {
+				out = c19BatchDec(out, par, f[3])
 			}
 		case "raw":
 			var buf []byte
